@@ -1,2 +1,3 @@
 import Props.C13
+import Props.C14
 import Props.C20
